@@ -23,6 +23,9 @@ Proof. vm_compute. reflexivity. Qed.
 Lemma gen_bp_quant_disjoint : Dtype_disjoint buffer_protocol_supported_dtypes supported_quantized_dtypes = true.
 Proof. vm_compute. reflexivity. Qed.
 
+Lemma gen_strings_canonical : strings_canonical dtype_to_string_table = true.
+Proof. vm_compute. reflexivity. Qed.
+
 Lemma gen_string_to_dtype_is_inverse : string_to_dtype_table = Dtype_swap dtype_to_string_table.
 Proof. reflexivity. Qed.
 
@@ -50,6 +53,10 @@ Qed.
 (* ------------------------------------------------------------------ table properties *)
 Lemma dtype_string_bijective : table_bijection all_supported_dtypes dtype_to_string_table.
 Proof. exact (bijective_table_sound _ _ gen_bijective). Qed.
+
+Lemma dtype_strings_canonical d s :
+  Dtype_get d dtype_to_string_table = Some s -> s = Dtype_torch_prefix ++ d.
+Proof. exact (strings_canonical_sound _ gen_strings_canonical d s). Qed.
 
 Lemma esize_matches_reference :
   table_sizes_match Dtype_ref_sizes all_supported_dtypes dtype_to_element_size_table.
@@ -102,17 +109,12 @@ Section Gen.
   Qed.
 End Gen.
 
-(* ------------------------------------------------------------------ stager: dispatch and copy guard *)
+(* ------------------------------------------------------------------ stager: serializer dispatch *)
+(* (should_copy_cpu_tensor is translated too, for C09; nothing in C17 depends on its value: tensor_as_memoryview
+   makes the tensor contiguous itself) *)
 Lemma stage_dispatch :
   stage_kind serializer_BUFFER_PROTOCOL_value = 2 /\ stage_kind serializer_TORCH_SAVE_value = 1.
 Proof. vm_compute. split; reflexivity. Qed.
-
-(* a non-contiguous or asynchronously snapshotted buffer-protocol tensor is cloned before tensor_as_memoryview;
-   a torch_save tensor that is a view of a larger storage is cloned before torch.save *)
-Lemma copy_guard a c n :
-  should_copy_cpu_tensor serializer_BUFFER_PROTOCOL_value a c n = (a || negb c) /\
-  should_copy_cpu_tensor serializer_TORCH_SAVE_value a c n = n.
-Proof. destruct a, c, n; vm_compute; split; reflexivity. Qed.
 
 (* ------------------------------------------------------------------ torch_save path (complex, quantized dtypes) *)
 (* torch.save / torch.load are not modelled: an oracle pair with the assumed law load (save x) = Some x.
